@@ -531,38 +531,57 @@ def doc_gen_cfg(ctx, kind, maxtok, maxdepth):
 
 
 def generate(ctx):
-    """(MC)+(GEN): returns (path token strings exhaustive, simulated, doc token strings exhaustive, simulated)"""
+    """(MC)+(GEN): returns (path token strings exhaustive, simulated, doc token strings exhaustive, simulated).
+    The five TLC runs are independent and run side by side."""
+    from concurrent.futures import ThreadPoolExecutor
     q = ctx.quick()
-    w = min(8, vlib.JOBS)
+    w = max(2, min(8, vlib.JOBS // 2))
     t0 = vlib.time.time()
-    # design level: laws of the interpreter
-    r = vlib.tlc_mc(ctx, 'SvgPathLaws', 'SvgPathLaws_quick.cfg' if q else 'SvgPathLaws_thorough.cfg', workers=w,
-                    heap='4g', timeout=2400)
-    ctx.coverage['laws_states'] = r['distinct']
-    # exhaustive path generator
-    r = vlib.tlc_mc(ctx, 'SvgPathGen', path_gen_cfg(ctx, 7 if q else 8, False), workers=w, heap='6g', timeout=2400)
-    pex = tlc_json_lines(r['out'])
-    ctx.coverage['path_generator_states'] = r['distinct']
+    cfg_pb = path_gen_cfg(ctx, 7 if q else 8, False)
+    cfg_ps = path_gen_cfg(ctx, 120, True)
+    cfg_db = doc_gen_cfg(ctx, 'bfs', 7 if q else 8, 3 if q else 4)
+    cfg_ds = doc_gen_cfg(ctx, 'sim', 40, 5)
+    vlib._speccopy(ctx)
+    jobs = dict(
+        # design level: laws of the interpreter
+        laws=lambda: vlib.tlc(ctx, 'SvgPathLaws', 'SvgPathLaws_quick.cfg' if q else 'SvgPathLaws_thorough.cfg',
+                              workers=w, heap='4g', timeout=3000),
+        pb=lambda: vlib.tlc(ctx, 'SvgPathGen', cfg_pb, workers=w, heap='6g', timeout=3000),
+        ps=lambda: vlib.tlc(ctx, 'SvgPathGen', cfg_ps, workers=1, simulate='num=%d' % (60 if q else 600), depth=125,
+                            seed=ctx.seed, timeout=1800),
+        db=lambda: vlib.tlc(ctx, 'SvgDocGen', cfg_db, workers=min(4, w), heap='4g', timeout=3000),
+        ds=lambda: vlib.tlc(ctx, 'SvgDocGen', cfg_ds, workers=1, simulate='num=%d' % (400 if q else 4000), depth=45,
+                            seed=ctx.seed, timeout=1800),
+    )
+    with ThreadPoolExecutor(max_workers=5) as ex:
+        fut = {}
+        for k, f in jobs.items():
+            fut[k] = ex.submit(f)
+            vlib.time.sleep(0.3)        # (vlib.tlc numbers its scratch directories without a lock)
+        res = {k: f.result() for k, f in fut.items()}
+    for k in ('laws', 'pb', 'db'):
+        r = res[k]
+        if r['invariant_violations'] or r['errors'] or not r['completed']:
+            raise vlib.Infra('design-level model checking (%s) did not pass:\n%s' % (k, r['out'][-3000:]))
+        ctx.add_mc(r)
+    for k in ('ps', 'ds'):
+        r = res[k]
+        if r['errors'] or r['invariant_violations']:
+            raise vlib.Infra('simulation (%s) failed: %s' % (k, r['out'][-1500:]))
+    ctx.coverage['laws_states'] = res['laws']['distinct']
+    pex = tlc_json_lines(res['pb']['out'])
+    ctx.coverage['path_generator_states'] = res['pb']['distinct']
     ctx.coverage['paths_enumerated'] = len(pex)
-    rs = vlib.tlc(ctx, 'SvgPathGen', path_gen_cfg(ctx, 120, True), workers=1, simulate='num=%d' % (60 if q else 600),
-                  depth=125, seed=ctx.seed, timeout=1200)
-    if rs['errors'] or rs['invariant_violations']:
-        raise vlib.Infra('SvgPathGen simulate failed: ' + rs['out'][-1500:])
-    psim = uniq([accepting_prefix(t) for t in tlc_json_lines(rs['out'])])
+    psim = uniq([accepting_prefix(t) for t in tlc_json_lines(res['ps']['out'])])
     ctx.coverage['paths_simulated'] = len(psim)
-    # documents
-    r = vlib.tlc_mc(ctx, 'SvgDocGen', doc_gen_cfg(ctx, 'bfs', 7 if q else 8, 3 if q else 4), workers=min(4, w), heap='4g',
-                    timeout=2400)
-    dex = tlc_json_lines(r['out'])
-    ctx.coverage['doc_generator_states'] = r['distinct']
+    dex = tlc_json_lines(res['db']['out'])
+    ctx.coverage['doc_generator_states'] = res['db']['distinct']
     ctx.coverage['docs_enumerated'] = len(dex)
-    rs = vlib.tlc(ctx, 'SvgDocGen', doc_gen_cfg(ctx, 'sim', 40, 5), workers=1, simulate='num=%d' % (400 if q else 4000),
-                  depth=45, seed=ctx.seed, timeout=1200)
-    if rs['errors'] or rs['invariant_violations']:
-        raise vlib.Infra('SvgDocGen simulate failed: ' + rs['out'][-1500:])
-    dsim = uniq(tlc_json_lines(rs['out']))
+    dsim = uniq(tlc_json_lines(res['ds']['out']))
     ctx.coverage['docs_simulated'] = len(dsim)
-    vlib.log('C05 generate: %.1fs' % (vlib.time.time() - t0))
+    if not pex or not psim or not dex or not dsim:
+        raise vlib.Infra('a generator produced nothing')
+    vlib.log('C05 generate: %.1fs (%s)' % (vlib.time.time() - t0, ', '.join('%s %.0fs' % (k, r['wall']) for k, r in res.items())))
     return pex, psim, dex, dsim
 
 
@@ -590,7 +609,10 @@ def repo_cases(ctx):
         if os.path.isdir(p):
             for fn in sorted(os.listdir(p)):
                 if fn.endswith('.svg'):
-                    h = vlib.hashlib.sha1(open(os.path.join(p, fn), 'rb').read()).hexdigest()
+                    data = open(os.path.join(p, fn), 'rb').read()
+                    if ctx.quick() and len(data) > 200000:
+                        continue            # the large benchmark files are thorough-tier inputs
+                    h = vlib.hashlib.sha1(data).hexdigest()
                     if h not in seen:
                         seen.add(h)
                         files.append(os.path.join(d, fn))
@@ -609,7 +631,7 @@ def make_cases(ctx):
 
     # exhaustive paths: every enumerated token string in one seeded style (quick: a seeded share of
     # them), batched into documents of 20 paths (the minifier reuses one PathData per document)
-    share = vlib.sample(pex, 14000, rnd) if q else pex
+    share = vlib.sample(pex, 10000, rnd) if q else pex
     rendered = [rendered_path(t, rnd) for t in share]
     if not q:
         rendered += [rendered_path(t, rnd, style=STYLES[3], dec=1) for t in pex[::3]]
